@@ -303,15 +303,18 @@ def prepare(tier, seed):
             groups = {}
             for dd in sorted(all_diffs, key=lambda x: len(x['text'])):
                 c = by_id[dd['id']]
+                if dd['verdict'] == 'ok' and dd['model_verdict'] != 'ok':
+                    # refused by the rules (model), expanded by the real front end
+                    if len(ill_suspects) < 12:
+                        ill_suspects.append((c.get('rule') or ('refused by the rules: ' + dd['model'][:80]), c['def']))
+                    continue
                 if dd['stream'] == 'mut':
-                    if dd['verdict'] == 'ok' and dd['model_verdict'] != 'ok' and len(ill_suspects) < 12:
-                        ill_suspects.append((c.get('rule', '?'), c['def']))
                     continue
                 if dd['verdict'] != 'ok' or dd['model_verdict'] != 'ok':
                     continue
                 g = groups.setdefault((dd['kind'], dd['region']), [])
                 if len(g) < 3:
-                    g.append((dd['feature'], c['def']))
+                    g.append((dd['feature'], c['def'], dd['id']))
             for g in groups.values():
                 suspects += g
             suspects = suspects[:(12 if tier == 'quick' else 40)]
